@@ -66,7 +66,7 @@ func (g *ExecutionGraph) addEdge(from string, to string) error {
 	g.from[from] = append(g.from[from], to)
 	g.to[to] = append(g.to[to], from)
 
-	if err := g.cycleDfs(to, make(map[string]bool)); err != nil {
+	if err := g.cycleDfs(to, make(map[string]bool), make(map[string]bool)); err != nil {
 		return err
 	}
 
@@ -98,21 +98,28 @@ func (g *ExecutionGraph) To(name string) []string {
 	return g.to[name]
 }
 
-func (g *ExecutionGraph) cycleDfs(t string, visited map[string]bool) error {
-	if visited[t] {
+// cycleDfs walks the stages that depend on t. onPath holds the stages of the
+// current DFS path - meeting one of them again is a cycle; a stage reached
+// again over a second path (diamond) is not. explored holds the stages whose
+// dependants were walked completely during this search, so that a layered graph
+// is not walked once per path
+func (g *ExecutionGraph) cycleDfs(t string, onPath, explored map[string]bool) error {
+	if onPath[t] {
 		return ErrCycleDetected
 	}
-	visited[t] = true
+	if explored[t] {
+		return nil
+	}
+	onPath[t] = true
 
 	for _, next := range g.from[t] {
-		err := g.cycleDfs(next, visited)
+		err := g.cycleDfs(next, onPath, explored)
 		if err != nil {
 			return err
 		}
 	}
-	// only nodes on the current DFS path count: a node reached again over a
-	// second path (diamond) is not a cycle
-	visited[t] = false
+	onPath[t] = false
+	explored[t] = true
 
 	return nil
 }
